@@ -579,11 +579,11 @@ fn main() {
     {
         let nl = 4u64; // Padded, SkipForeign, FallThrough, SharedTail
         let n = space.len() * 3 * nl;
-        let words_f2 = words_upto(ctx.pick(4, 3));
+        let words_f2 = words_upto(4);
         let (sp, w, shr) = (&space, &words_f2, &sh);
         ctx.family(
             "programs-layouts",
-            &format!("every set of <= {max_rules} rules x boundarychar x 4 chain layouts (300 unreachable instructions in front so that entry points exceed 255; SKIP 1 over a foreign instruction; chains falling through into the next chain; character c entering a chain at its last instruction) x every word of length 1..{} x 3 modes", ctx.pick(4, 3)),
+            &format!("every set of <= {max_rules} rules x boundarychar x 4 chain layouts (300 unreachable instructions in front so that entry points exceed 255; SKIP 1 over a foreign instruction; chains falling through into the next chain; character c entering a chain at its last instruction) x every word of length 1..4 x 3 modes"),
             n,
             |i, acc| {
                 let d = vcore::digits(i, &[sp.len(), 3, nl]);
@@ -591,6 +591,19 @@ fn main() {
                 check_program(i, &rules, rbc_of(d[1]), LAYOUTS[1 + d[2] as usize], w, None, acc, shr, false);
             },
         );
+    }
+    // F2b (quick only; the thorough tier has the whole 3-rule space): 3 rules over a narrow op menu
+    if ctx.quick() {
+        const NARROW: [u8; 9] = [0, 4, 7, 10, 13, 16, 19, 22, 25]; // kern #0 and the 8 forms inserting c
+        let sp3 = Space::new(3);
+        let combos = sp3.combos[3].clone();
+        let n = combos.len() as u64 * 729 * 3;
+        let (w, shr, cb) = (&words_short, &sh, &combos);
+        ctx.family("programs-3-rules-narrow", "every set of exactly 3 rules with distinct (left,right) and op in {kern, 8 ligature forms inserting c} x boundarychar x every word of length 1..4 x 3 modes, consecutive layout", n, |i, acc| {
+            let d = vcore::digits(i, &[cb.len() as u64, 9, 9, 9, 3]);
+            let rules: Vec<Rule> = cb[d[0] as usize].iter().zip(&d[1..4]).map(|(slot, o)| Rule { left: slot / 3, right: slot % 3, op: NARROW[*o as usize] }).collect();
+            check_program(i, &rules, rbc_of(d[4]), Layout::Consecutive, w, None, acc, shr, false);
+        });
     }
     // F3: a word with skip byte > 128 inside a chain (TeX §1039 never executes it and stops there;
     //     lang::Operation::EntrypointRedirect documents it as an unconditional stop)
